@@ -469,9 +469,13 @@ def natural_sorting(text: str) -> list[float | str]:
     ['z2', 'z11']
     """
     # https://stackoverflow.com/a/5967539/13219025
+    # only the captured pieces (odd positions) are numbers: text such as "inf" or "nan"
+    # has to stay a string, so that the keys remain comparable
     return [
-        __attempt_number_cast(c)
-        for c in re.split(r"[+-]?([0-9]+(?:[.][0-9]*)?|[.][0-9]+)", text)
+        __attempt_number_cast(c) if i % 2 else c
+        for i, c in enumerate(
+            re.split(r"[+-]?([0-9]+(?:[.][0-9]*)?|[.][0-9]+)", text)
+        )
     ]
 
 
